@@ -21,7 +21,7 @@ import (
 // package's MetricDefinitions. This is constant extraction from the SSA of the
 // current tree, not solving.
 func metricScan(dir, out string) {
-	cfg := &packages.Config{Mode: packages.LoadAllSyntax, Dir: dir, Env: append(os.Environ(), "GOFLAGS=-mod=mod", "GOPROXY=off", "GOSUMDB=off")}
+	cfg := &packages.Config{Mode: packages.LoadAllSyntax, Dir: dir, BuildFlags: []string{"-tags=verif"}, Env: append(os.Environ(), "GOFLAGS=-mod=mod", "GOPROXY=off", "GOSUMDB=off")}
 	pkgs, err := packages.Load(cfg, "github.com/hashicorp/raft-wal", "github.com/hashicorp/raft-wal/verifier")
 	if err != nil || packages.PrintErrors(pkgs) > 0 {
 		fmt.Fprintln(os.Stderr, "load error", err)
